@@ -55,13 +55,37 @@ def history(draw):
             m = draw(molecules(max_blocks=1, max_atoms=4, small=True, chem="any"))
             mols.append(("any", m, draw(st.integers(0, 50))))
         else:
-            m = draw(molecules(max_blocks=2, max_atoms=5, small=True, chem="ff"))
+            # tokens large enough for the ring motifs (benzene, pyridine, thiophene, furan, pyrimidine, N-substituted imidazole)
+            m = draw(molecules(max_blocks=2, max_atoms=draw(st.sampled_from([5, 7, 8, 9])), small=True, chem="ff"))
             mols.append(("ff", m, draw(st.integers(0, 50))))
     ops = []
     for _ in range(draw(st.integers(3, 7))):
         ops.append((draw(st.integers(0, nm - 1)), draw(st.sampled_from(["default", "default", "copies", "renumbered", "property"])),
                     draw(st.integers(0, 2**31 - 1))))
     return mols, ops
+
+
+def _ring_labels(mols):
+    """which aromatic ring motifs occur in the tokens of the history's molecules (from the AST, not from the text)"""
+    out = set()
+    for kind, m, _ in mols:
+        if kind == "partial":
+            continue
+        for t in m.tokens:
+            aro = [a for a in t.atoms if a in ("c", "n", "s", "o")]
+            if not aro:
+                continue
+            if aro.count("n") >= 2:
+                out.add("ring:imidazole_or_pyrimidine")
+            elif "n" in aro:
+                out.add("ring:pyridine")
+            elif "s" in aro:
+                out.add("ring:thiophene")
+            elif "o" in aro:
+                out.add("ring:furan")
+            else:
+                out.add("ring:benzene")
+    return sorted(out)
 
 
 def element_mass(z):
@@ -194,7 +218,8 @@ def run_history(acc, mols, ops):
             except Exception:  # noqa: BLE001
                 pass
         nontrivial = explicit_before_default or len(kinds) >= 3
-        acc.case((tuple(texts), tuple(shape)) if nontrivial else None, labels=["op:" + h for h in shape] + ["mol:" + k for k, _, _ in mols])
+        acc.case((tuple(texts), tuple(shape)) if nontrivial else None, labels=["op:" + h for h in shape] + ["mol:" + k for k, _, _ in mols] +
+                 _ring_labels(mols))
         if acc.evaluations % 11 == 0:
             acc.sample({"molecules": texts, "history": shape})
     finally:
